@@ -51,3 +51,12 @@ Theorem C10_compact_ids_never_reused : forall s s', ids_ok (s_segs s) (s_counter
   (forall g, In g (s_segs s') -> sg_id g <= s_counter s \/ sg_id g = s_counter s + 1).
 Proof. exact compact_ids_never_reused. Qed.
 Print Assumptions C10_compact_ids_never_reused.
+
+(** after a crash the counter restarts at the largest identifier naming ANY file left in the directory
+    — including a partial segment that is not registered — so that identifier is not reused *)
+Theorem C10_partial_segment_id_not_reused : forall p hv ht hm limit cthr known listing,
+  NoDup (map fst listing) ->
+  let s := reopen_store p hv ht hm limit cthr known listing in
+  ids_ok (s_segs s) (s_counter s) /\ (forall id, In id (map fst listing) -> id <= s_counter s).
+Proof. exact reopen_ids_ok. Qed.
+Print Assumptions C10_partial_segment_id_not_reused.
